@@ -120,7 +120,8 @@ def run_A(prop, modname, tier, seed, kmodname=None):
         "states": max(reached, 1),
         "transitions": max(sum(r["z3_queries"] for r in records.values()), 1),
         "traces_validated_against_impl": sum(
-            1 for r in records.values() if r.get("real_instance", {}).get("real") == "ok"),
+            (1 if r.get("real_instance", {}).get("real") == "ok" else 0) + r.get("real_instances_more", 0)
+            for r in records.values()),
         "states_transitions_meaning": "states = executions of the real code that arrived at the harness' final "
                                       "assertion (one symbolic state each, standing for all payload values of its path "
                                       "condition); transitions = branch decisions put to z3; traces_validated_against_"
